@@ -104,8 +104,9 @@ def check_accessor_identities(c, system, traj, data):
         merged = sut_call("get_trajectory(merge=True)", traj.get_trajectory, sref, merge=True)
         same_units(merged, c, "get_trajectory(merge=True)")
         for n in range(nsamp):
-            want_sum = sum(data[n * ns * nc + s * nc + i] for i in range(nc))
-            if abs(float(merged.value[n]) - want_sum) > 1e-9 * abs(want_sum):
+            terms = [data[n * ns * nc + s * nc + i] for i in range(nc)]
+            want_sum = sum(terms)
+            if abs(float(merged.value[n]) - want_sum) > 1e-9 * sum(abs(v) for v in terms):
                 raise Violation("get_trajectory(species %d, merge=True)[%d] = %r, sum over cells %r" % (
                     s, n, float(merged.value[n]), want_sum), key="accessors:merge")
             st_ = sut_call("get_state(s, n)", traj.get_state, sref, n)
